@@ -14,7 +14,7 @@ ID = "C12"
 LEVEL = "exploration"
 BUDGET = {
     "quick": {"runs": 4000, "wall": 240, "chunk": 25},
-    "thorough": {"runs": 40000, "wall": 3000, "chunk": 100},
+    "thorough": {"runs": 150000, "wall": 3400, "chunk": 100},
 }
 RULE = (
     "each run instantiates one random program twice. World: backward(inputs=None) or mtl_backward with "
